@@ -249,11 +249,10 @@ func (c *Ctx) authDom(fn *ssa.Function) {
 			if b.Op == token.NEQ {
 				nilSucc = ifi.Block().Succs[1]
 			}
-			onlyReturn := true
-			for _, in := range nilSucc.Instrs {
-				switch in.(type) {
-				case *ssa.Return, *ssa.RunDefers:
-				default:
+			// the refused edge does nothing but (optionally log and) return
+			onlyReturn := BlockEndsInReturn(nilSucc)
+			for _, cs := range u.CallsInBlockChain(nilSucc) {
+				if !neutralCallee(cs.Callee) {
 					onlyReturn = false
 				}
 			}
@@ -284,7 +283,7 @@ func (c *Ctx) authDom(fn *ssa.Function) {
 		if Dominates(ac.Instr, in) && GuardedNonNil(in, authVal) {
 			return
 		}
-		if _, ok := preAuthAllowed[callee]; ok {
+		if _, ok := preAuthAllowed[callee]; ok || neutralCallee(callee) {
 			if !preAuthNeedsFeatureOff[callee] {
 				return
 			}
@@ -415,4 +414,14 @@ func (c *Ctx) preflightOnly() {
 	if n == 0 {
 		r.Undec("R-PREFLIGHT-ONLY", "ServeHTTP", u.Pos(fn.Pos()), "no non-dispatching exits found; idiom not recognised")
 	}
+}
+
+// neutralCallee: calls that neither do RPC work nor influence a decision:
+// the print builtins and the standard loggers.
+func neutralCallee(name string) bool {
+	switch name {
+	case "println", "print":
+		return true
+	}
+	return strings.HasPrefix(name, "log/slog.") || strings.HasPrefix(name, "(*log/slog.Logger).") || strings.HasPrefix(name, "log.") || strings.HasPrefix(name, "(*log.Logger).")
 }
